@@ -50,6 +50,9 @@ func (u *Unsubscribe) Decode(src []byte) (int, error) {
 		return total, err
 	}
 
+	// limit buffer to the declared packet length
+	src = src[:total+rl]
+
 	// read packet id
 	pid, n, err := readUint(src[total:], 2, UNSUBSCRIBE)
 	total += n
